@@ -53,3 +53,16 @@ Lemma ex_backend_ok : prepare_structural ex_m = Ok ex_b.
 Proof. vm_compute. reflexivity. Qed.
 
 Definition num_times_ex : nat := Model.Run.num_times ex_m.
+
+(* the same model over two Euler steps (keeps the exact rational trajectories small) *)
+Definition ex_model2 : option model := build_ok 0 1 (1#2) ["S"; "I"; "R"] ["I"] ex_ops.
+Definition ex_m2 : model := match ex_model2 with Some m => m | None => empty_model end.
+Lemma ex_model2_ok : ex_model2 = Some ex_m2.
+Proof. vm_compute. reflexivity. Qed.
+
+(* the examples are reachable through the build API (stated with explicit arguments so that the
+   reachability theorems apply by first-order unification) *)
+Lemma ex_build_ok : build_ok 0 2 (1#2) ["S"; "I"; "R"] ["I"] ex_ops = Some ex_m.
+Proof. vm_compute. reflexivity. Qed.
+Lemma ex_build2_ok : build_ok 0 1 (1#2) ["S"; "I"; "R"] ["I"] ex_ops = Some ex_m2.
+Proof. vm_compute. reflexivity. Qed.
